@@ -14,7 +14,7 @@ META = {
                    "a shared cache could use (same base URI, same $ref strings designating different definitions, same remote URL served "
                    "by different stores, same pattern text, same format name with different checkers); each iterator must yield exactly "
                    "what it yields when run alone",
-    "bounds": {"schedule": "<= 6 steps quick / 8 thorough, then both iterators are drained", "errors per iterator": "<= 3", "instances": "arrays of <= 2 ints"},
+    "bounds": {"schedule": "4 steps quick / 5 thorough, then both iterators are drained", "errors per iterator": "<= 3", "instances": "arrays of <= 2 ints"},
     "outside": ["preemptive thread schedules (CrossHair executes one thread; no byte-code level concurrency engine is available): a "
                 "cache hoisted to module or class level already breaks sequential alternation and is caught by this form"],
     "stubs": ["message formatting"],
@@ -191,9 +191,9 @@ def conditions(tier, seed, active):
     import itertools
     out = []
     quick = tier == "quick"
-    steps = 4 if quick else 6
+    steps = 4 if quick else 5
     for d in (3, 4, 6, 7):
-        cols = QUICK.get(d, []) if quick else COLLIDE
+        cols = QUICK.get(d, []) if quick else (COLLIDE if d in (4, 7) else ["ref", "relative"])
         for col in cols:
             for prefix in itertools.product((0, 1), repeat=2):
                 out.append(dict(id="two/%s/d%d/steps%d/prefix%s" % (col, d, steps, "".join(map(str, prefix))), module=__name__, factory="cube",
